@@ -13,6 +13,17 @@ OUT = ROOT + "/checker/selftest/mutants"
 ENV = dict(os.environ, GOFLAGS="-mod=mod", GOPROXY="off", GOSUMDB="off", GOTOOLCHAIN="local", GOWORK="off")
 
 M = []
+# ---- round 4/5 rules
+m("C11-R10-list-drops-default", "C11", "C11.R10", "builder/list.go", '\tif ctx.UseConstructor && !source.ListFixed {\n', '\tif false {\n')
+m("C02-R11-unguarded-deref", "C02", "C02.R11", "builder/struct.go", '\t\t\tnextSource = nextSource.PointerInner\n\t\t}\n\t\tif !nextSource.Struct {', '\t\t\tnextSource = nextSource.PointerInner\n\t\t\tfor nextSource.Pointer {\n\t\t\t\tnextIDCode = jen.Parens(jen.Op("*").Add(nextIDCode.Clone()))\n\t\t\t\tnextSource = nextSource.PointerInner\n\t\t\t}\n\t\t}\n\t\tif !nextSource.Struct {')
+m("C07-R10-nil-path", "C07", "C07.R10", "builder/pointer.go", 'nextInner, nextID, err := gen.Build(ctx, sourceID.Deref(source), source.PointerInner, target, path)', 'nextInner, nextID, err := gen.Build(ctx, sourceID.Deref(source), source.PointerInner, target, nil)')
+m("C16-R8-split-tags", "C16", "C16.R8", "pkgload/pkgload.go", '\tif buildTags != "" {\n', '\tif len(strings.Split(buildTags, ",")) > 0 && buildTags != "" {\n')
+m("C13-R4-fresh-seen", "C13", "C13.R4", "xtype/type.go", '\t\trt.MapKey = typeOf(value.Key(), seen)', '\t\trt.MapKey = TypeOf(value.Key())')
+m("C03-R10-basic-extra", "C03", "C03.R10", "builder/basic.go", 'return source.Basic && target.Basic &&\n\t\tsource.BasicType.Kind() == target.BasicType.Kind()', 'return source.Basic && target.Basic && !target.Named &&\n\t\tsource.BasicType.Kind() == target.BasicType.Kind()')
+m("C01-R10-explicit-other", "C01", "C01.R10", "generator/generator.go", '\t\t\tif check.Explicit && !check.ReturnError {', '\t\t\tif current.Explicit && !check.ReturnError {')
+m("C12-R16-one-direction", "C12", "C12.R16", "method/index.go", 'if satisfiesContext(entry.Def.Context, def.Context) || satisfiesContext(def.Context, entry.Def.Context) {', 'if satisfiesContext(entry.Def.Context, def.Context) {')
+m("C07-R11-replace-last", "C07", "C07.R11", "builder/errorpath.go", 'func (e ErrorPath) Index(code *jen.Statement) ErrorPath { return append(e, errElmIndex{code}) }', 'func (e ErrorPath) Index(code *jen.Statement) ErrorPath {\n\tif len(e) > 8 {\n\t\treturn e\n\t}\n\treturn append(e, errElmIndex{code})\n}')
+
 def m(id, prop, rule, file, old, new, count=1):
     M.append(dict(id=id, prop=prop, rule=rule, file=file, old=old, new=new, count=count))
 
@@ -69,7 +80,7 @@ https://goverter.jmattheis.de/reference/extend`, source.T, target.T))''', '''	if
 You can define a custom conversion method with extend:
 https://goverter.jmattheis.de/reference/extend`, source.T, target.T))''')
 # ---- C04
-m("C04-R1-list-identity", "C04", "C04.R1", "builder/list.go", '\tctx.SetErrorTargetVar(jen.Nil())\n\ttargetSlice := ctx.Name(target.ID())\n', '\tctx.SetErrorTargetVar(jen.Nil())\n\tif source.String == target.String {\n\t\treturn nil, sourceID, nil\n\t}\n\ttargetSlice := ctx.Name(target.ID())\n')
+m("C04-R1-list-identity", "C04", "C04.R1", "builder/list.go", '\t\treturn BuildByAssign(l, gen, ctx, sourceID, source, target, path)\n\t}\n\ttargetSlice := ctx.Name(target.ID())\n', '\t\treturn BuildByAssign(l, gen, ctx, sourceID, source, target, path)\n\t}\n\tif source.String == target.String {\n\t\treturn nil, sourceID, nil\n\t}\n\ttargetSlice := ctx.Name(target.ID())\n')
 m("C04-R1-pointer-assign-identity", "C04", "C04.R1", "builder/pointer.go", '\tctx.SetErrorTargetVar(jen.Nil())\n\n\tnextBlock, id, err := gen.Build(ctx, sourceID.Deref(source)', '\tctx.SetErrorTargetVar(jen.Nil())\n\tif source.String == target.String {\n\t\treturn []jen.Code{assignTo.Stmt.Clone().Op("=").Add(sourceID.Code)}, nil\n\t}\n\n\tnextBlock, id, err := gen.Build(ctx, sourceID.Deref(source)')
 m("C04-R2-write-source", "C04", "C04.R2", "builder/struct.go", 'stmt = append(stmt, jen.Id("_").Op("=").Add(sourceID.Code.Clone()))', 'stmt = append(stmt, sourceID.Code.Clone().Op("=").Add(sourceID.Code.Clone()))')
 m("C04-R4-struct-field", "C04", "C04.R4", "generator/generator.go", 'f.Type().Id(g.conf.Name).Struct()', 'f.Type().Id(g.conf.Name).Struct(jen.Id("cache").Map(jen.String()).Int())')
